@@ -137,7 +137,11 @@ void e3_run(e3_stats *out) {
         uint32_t depth = S[si].depth;
         if ((int)depth > out->max_depth) out->max_depth = (int)depth;
         if (c->max_depth && (int)depth >= c->max_depth) { out->fixpoint = 0; out->cap = "depth"; goto done_state; }
-        if (c->deadline_s > 0 && (si & 63) == 0 && vf_now_s() - t0 > c->deadline_s) { out->fixpoint = 0; out->cap = "deadline"; break; }
+        if ((si & 15) == 0) {
+            double now = vf_now_s();
+            if (c->deadline_s > 0 && now - t0 > c->deadline_s) { out->fixpoint = 0; out->cap = "deadline"; break; }
+            if (vf_violation_events && now - vf_first_violation_t > VF_GRACE_AFTER_VIOLATION_S) { out->fixpoint = 0; out->cap = "stopped-after-violation"; break; }
+        }
         for (int ev = 0; ev < c->nev; ev++) {
             vf_snap *ns[E3_MAXW] = {0};
             int first = 1, diverged = 0;
